@@ -23,8 +23,10 @@ CHECK = {
              'natural result (counted); counts past the end are clamped; growth above the allocator cap or to an '
              'unrepresentable length must abort with the object unchanged (set_str: previous content or empty); an '
              'unsatisfiable reserve is a quiet no-op. A case is distinct by the contents of both objects (closure, '
-             'random) or by the matrix cell, and non-trivial when the two strings hold >= 2 characters together.'),
-    'assumptions': ['source and destination strings are distinct objects; insert_str_n/append_str_n are given at most '
+             'random) or by the matrix cell, and non-trivial when the two strings hold >= 2 characters together.'
+             ' Plus (harness/huge.c, the library as shipped without sanitizer) narrow strings of 2^31+21 and 2^32+21 characters and wide strings of 2^30+33 (thorough: 2^32+35) characters: append_ch run scanned completely, resize to 0 and back inside the capacity must NUL-fill (complete scan), position-dependent content written through data() then insert_str near the front (moved tail > 2^32 characters), near the end, insert_ch in the middle, substr with a clamped count into a second huge string, erase of a huge middle range and a clamped erase to the end, each verified at segment boundaries, around 2^31/2^32 and at 16384 scattered positions; find_ch/find_str results above 2^32; at(size) aborts; (thorough) compare of two strings that differ only beyond 2^32, append and find of a huge string.'),
+    'assumptions': ['the huge scenarios need 3-12 GiB of free memory; one that the machine cannot back (MemAvailable too small, or the C library refuses the request) is skipped and counted (huge.skipped.*), nothing is concluded from it',
+                    'source and destination strings are distinct objects; insert_str_n/append_str_n are given at most '
                     'the characters the raw string has',
                     'allocator requests above 64 MiB (or above the lowered cap of a case) are refused on purpose; growth '
                     'whose size is within a factor 2 of a lowered cap may either succeed or abort',
@@ -34,6 +36,8 @@ CHECK = {
                     'gcc 12 ASan/UBSan runtimes; dbg-asan keeps library asserts live, rel-asan is the NDEBUG build'],
     'runs': [
         {'harness': 'string', 'sources': ['harness/string.c'] + EX, 'configs': both(['dbg-asan', 'rel-asan'])},
+        # objects of 2^31 .. 2^33 elements, the library as shipped (no sanitizer), own oracles (harness/huge.c)
+        {'harness': 'huge', 'sources': ['harness/huge.c'], 'mode': 'string', 'configs': both(['rel-huge']), 'workers': 3},
     ],
 }
 
